@@ -4,7 +4,7 @@ import copy
 import math
 
 from pbt.engine import Outcome, Violation
-from pbt.harness import Session, ancestors, iter_tree
+from pbt.harness import Unattributable, Session, ancestors, iter_tree
 from pbt.ref import hoo as R
 
 REL = 1e-9
@@ -253,6 +253,8 @@ def run(case, prop):
             if not_expanded:
                 classes.append("round-without-expansion")
             return Outcome(nontrivial=nt, classes=classes, rounds=T)
+    except Unattributable:
+        return Outcome(aborted="point-matches-several-cells", classes=classes)
     except Violation as v:
         return Outcome(violation=v.as_dict(), classes=classes, rounds=v.round or 0)
 
